@@ -498,6 +498,35 @@ def check_xz_lzma_heur(ck, prog_xz, rule="C16-XZ"):
               sorted(SREF - S), sorted(S - SREF)), key="XZ:lzma-dict-size-set")
 
 
+def check_xz_lzma_size(ck, prog, prog_xz, rule="C16-XZ"):
+    """The second half of the same heuristic: a known uncompressed size of 256 GiB or more means "not .lzma".  xz's constant
+    has to be the library's (alone_decode, picky mode: `>= 1 << 38`): with a smaller one xz -- and through `xz -dcf` the
+    xzgrep/xzdiff/xzless scripts -- pass a valid .lzma file through as if it were plain text."""
+    def bound(f):
+        out = []
+        for b in f.blocks.values():
+            if b.term and "cond" in b.term:
+                c = ex.strip(b.term["cond"])
+                if c is not None and c.get("k") == "bin" and c["op"] in (">", ">=") and "uncompressed_size" in ex.show(c["l"]) \
+                        and ex.const_val(c["r"]) is not None:
+                    out.append((ex.const_val(c["r"]), c))
+        return out
+    fx = prog_xz.fn("is_format_lzma", "coder.c", target="xz")
+    fl = prog.fn("alone_decode", "alone_decoder.c")
+    ck.saw_function(fx)
+    ck.saw_function(fl)
+    bx, bl = bound(fx), bound(fl)
+    if not bx or not bl:
+        raise AnalysisBroken("is_format_lzma / alone_decode: the bound on a known uncompressed size was not found")
+    ok = {v for v, c in bx} == {v for v, c in bl}
+    ck.ob(rule, "xz-lzma-size-limit", ok, common.where(fx, bx[0][1]),
+          "xz is_format_lzma and liblzma's alone_decode use the same bound for a known uncompressed size (2^%d)" % (bx[0][0].bit_length() - 1) if ok else
+          "xz is_format_lzma(): a known uncompressed size is compared with %d, liblzma's .lzma decoder uses %d: .lzma files with a "
+          "declared size between the two are not recognised by xz although the library decodes them; `xz -dcf` (xzgrep, xzdiff, "
+          "xzless) then copies the compressed bytes through as if they were the data" % (bx[0][0], bl[0][0]),
+          key="XZ:lzma-size-limit")
+
+
 def check_alone_extras(ck, prog, prog_xz):
     """Three conventions around the .lzma decoder that other code relies on:
     (1) auto_decode() recognises "the sub-decoder is the .lzma one" by `coder->next.get_check == NULL` (comment at the
@@ -715,8 +744,14 @@ def run(ck):
     prog_xz = common.program(ck, ("xz",), files=("/coder.c",))
     check_xz_magic(ck, prog, prog_xz)
     check_xz_lzma_heur(ck, prog_xz)
+    check_xz_lzma_size(ck, prog, prog_xz)
     check_alone_extras(ck, prog, common.program(ck, ("xz",), files=("/file_io.c",)))
     ck.floor("C16-XZ", 6)
     # "concatenation rules hold": xz accepts a .lzma / raw stream only when nothing follows it (rule shared with C17)
     from . import C17
     C17.check_fail(ck, prog_xz)
+    # ".lzma: nothing may follow the stream": lzmadec accepts the end only after a further read found the end of the file
+    # (rule shared with C18)
+    from . import C18 as _C18
+    ck.rule("C16-LZMADEC", "lzmadec: LZMA_STREAM_END is accepted only with avail_in == 0, fread() == 0 and feof()")
+    _C18.check_lzmadec_trailing(ck, common.program(ck, ("lzmadec",), files=("xzdec.c",)), rule="C16-LZMADEC")
